@@ -91,6 +91,8 @@ def _arrays(tier, seed):
     out.append(("chromatic_sharps_context", [(68, 0, 1), (72, 1, 1), (75, 2, 1), (70, 3, 1), (73, 4, 1), (77, 5, 1), (69, 6, 1), (70, 7, 1), (68, 8, 1)]))
     out.append(("single_note", [(21, 0, 1)]))
     out.append(("extremes", [(21, 0, 1), (108, 0, 1), (22, 1, 0.5), (107, 1.5, 2)]))
+    out.append(("top_of_the_keyboard", [(108, 0, 4), (103, 4, 1), (100, 5, 1), (108, 6, 2), (105, 8, 1), (108, 9, 4), (107, 13, 1), (108, 14, 4), (103, 18, 2)]))
+    out.append(("above_the_keyboard", [(120, 0, 2), (124, 2, 1), (127, 3, 2), (120, 5, 3), (122, 8, 1), (127, 9, 2), (125, 11, 1), (120, 12, 4)]))
     out.append(("flats_context", [(63, 0, 1), (58, 1, 1), (65, 2, 1), (68, 3, 1), (61, 4, 1), (66, 5, 1), (70, 6, 2)]))
     n = 40 if tier == "quick" else 300
     out.append(("random_%d" % n, [(rng.randint(21, 108), round(rng.random() * 20, 2), round(rng.random() * 2, 2)) for _ in range(n)]))
@@ -176,12 +178,13 @@ def bounded(b):
                 tie = False
                 if ok2 and isinstance(ranked, (list, tuple)) and len(ranked) > 1:
                     tie = False
-                inside = [r for r in rows if 33 <= r[0] <= 96]
-                if len(inside) == len(rows) and any(r[2] > 0 for r in rows):
-                    up = estimate_key(_na([(p + 12, o, d) for (p, o, d) in rows], unit), key_profiles=prof)
+                lo_p, hi_p = min(r[0] for r in rows), max(r[0] for r in rows)
+                sgn = 1 if hi_p <= 96 else -1  # shift towards the middle of the MIDI range so that every shifted pitch stays a valid pitch
+                if (lo_p >= 33 if sgn == -1 else lo_p >= 0) and any(r[2] > 0 for r in rows):
+                    up = estimate_key(_na([(p + 12 * sgn, o, d) for (p, o, d) in rows], unit), key_profiles=prof)
                     sc2 = estimate_key(_na([(p, o, d * 3) for (p, o, d) in rows], unit), key_profiles=prof)
                     eq = []
-                    for k in (1, 5, 7):
+                    for k in (1 * sgn, 5 * sgn, 7 * sgn):
                         kk = estimate_key(_na([(p + k, o, d) for (p, o, d) in rows], unit), key_profiles=prof)
                         t0, t1 = _tonic_pc(key), _tonic_pc(kk)
                         eq.append(((t0 + k) % 12 == t1) and (key.endswith("m") == kk.endswith("m")))
